@@ -80,7 +80,7 @@ def canon_message(m):
     return dict(attr=gen.norm(attrs), nlri=gen.norm(m.get('nlri') or []), withdraw=gen.norm(m.get('withdraw') or []))
 
 
-def roundtrip_violation(Update, msg_dict, asn4, result):
+def roundtrip_violation(Update, msg_dict, asn4, result, addpath=False):
     """None if decode(construct(m)) == m, else a description"""
     want = canon_message(msg_dict)
     if result is None:
@@ -90,7 +90,7 @@ def roundtrip_violation(Update, msg_dict, asn4, result):
     if not isinstance(result, (bytes, bytearray)) or result[:16] != b'\xff' * 16:
         return 'construct returned %r' % (result[:40] if isinstance(result, (bytes, bytearray)) else result,)
     try:
-        back = Update.parse(None, bytes(result[19:]), asn4)
+        back = Update.parse(None, bytes(result[19:]), asn4, {'ipv4': True} if addpath else None)
     except Exception as e:
         return 'decoding the constructed message raised %r' % (e,)
     if back.get('sub_error'):
@@ -115,11 +115,9 @@ def install(on_violation=None):
 
     def roundtrip_holds(cls, msg_dict, result, asn4=False, addpath=False):
         _count('Update.construct:roundtrip')
-        if addpath:
-            return True
-        why = roundtrip_violation(Update, msg_dict, asn4, result)
+        why = roundtrip_violation(Update, msg_dict, asn4, result, addpath)
         if why:
-            rec = dict(contract='roundtrip', msg=gen.norm(msg_dict), asn4=bool(asn4), why=why)
+            rec = dict(contract='roundtrip', msg=gen.norm(msg_dict), asn4=bool(asn4), addpath=bool(addpath), why=why)
             STATE['violations'].append(rec)
             if on_violation:
                 on_violation(rec)
